@@ -478,8 +478,10 @@ def run_property(mod, prop, tier, seed, build, t0, skip_d=False, skip_b=False, o
             known_findings_hit=sorted(known_printed),
             whatshap_imported_from=build, repo=os.environ.get("VERIF_REPO", "/repo"),
         ))
-    os.makedirs(os.path.join(OUT, "evidence"), exist_ok=True)
-    with open(os.path.join(OUT, "evidence", prop + ".json"), "w") as f:
+    # a partial run (--no-d / --no-b / --only, used while developing) must not overwrite the record of a full run
+    ev_dir = os.path.join(OUT, "evidence" if not (skip_d or skip_b or only) else "evidence_partial")
+    os.makedirs(ev_dir, exist_ok=True)
+    with open(os.path.join(ev_dir, prop + ".json"), "w") as f:
         json.dump(ev, f, indent=1, default=str)
     print("SUMMARY property=%s tier=%s level=%s obligations=%d discharged=%d solver_s=%.1f bounded_evaluations=%d distinct_nontrivial=%d "
           "violations=%d known_findings=%d undecided=%d wall=%.1fs" % (prop, tier, level, n_ob, n_dis, solver_s, evals, dn, len(violations),
